@@ -208,8 +208,14 @@ def _scenario_child(steps, seed):
         for i, st in enumerate(steps):
             SIM.begin_op(i)
             n_fired = len(SIM.fired)
-            oc = ops.execute_op(st["op"], sb, i)
+            at_raise = []
+            oc = ops.execute_op(st["op"], sb, i, on_raise=lambda: at_raise.extend(sb.leftovers()))
             flags = _ledger(sb)
+            # what was on disk at the moment run() raised, while the error was still referenced (cleanup must not
+            # wait for the exception, its traceback or the garbage collector to go away)
+            early = [p for p in at_raise if os.path.basename(p).startswith("duckdb_tmp_") or p.endswith((".duckdb", ".wal"))]
+            if early and not any(f[0] in ("session-dir-left", "db-file-left") for f in flags):
+                flags.append(("session-dir-present-when-run-raised", early[:3]))
             out.append({"outcome": oc, "ledger": flags, "fired": [list(x) for x in SIM.fired[n_fired:]], "K": SIM.k})
         return {"steps": out, "digest": SIM.digest(), "events": len(SIM.events)}
     finally:
@@ -221,8 +227,11 @@ def _reference_child(op, seed):
     try:
         SIM.reset(seed=seed)
         SIM.begin_op(0)
-        oc = ops.execute_op(op, sb, 0)
+        at_raise = []
+        oc = ops.execute_op(op, sb, 0, on_raise=lambda: at_raise.extend(sb.leftovers()))
         flags = _ledger(sb)
+        if at_raise and not flags:
+            flags.append(("session-dir-present-when-run-raised", at_raise[:3]))
         # phases() uses DuckDB's SQL parser: only ever in a child, never in the zygote
         return {"outcome": oc, "ledger": flags, "K": SIM.k, "phases": phases(list(SIM.events))}
     finally:
